@@ -1385,6 +1385,8 @@ class rruleset(rrulebase):
         self._exdate.append(exdate)
 
     def _iter(self):
+        members = (len(self._rrule), len(self._rdate),
+                   len(self._exrule), len(self._exdate))
         rlist = []
         self._rdate.sort()
         self._genitem(rlist, iter(self._rdate))
@@ -1414,7 +1416,10 @@ class rruleset(rrulebase):
             advance_iterator(ritem)
             if rlist and rlist[0] is ritem:
                 heapq.heapreplace(rlist, ritem)
-        self._len = total
+        if members == (len(self._rrule), len(self._rdate),
+                       len(self._exrule), len(self._exdate)):
+            # Members added while this iterator was running are not in total
+            self._len = total
 
 
 
